@@ -25,6 +25,7 @@ import (
 	"github.com/scrapli/scrapligo/driver/network"
 	"github.com/scrapli/scrapligo/driver/opoptions"
 	"github.com/scrapli/scrapligo/driver/options"
+	"github.com/scrapli/scrapligo/platform"
 	"github.com/scrapli/scrapligo/response"
 	"github.com/scrapli/scrapligo/transport"
 	"github.com/scrapli/scrapligo/util"
@@ -52,7 +53,9 @@ var c06scenarios = []string{"g-send", "g-prompt", "g-inter", "g-open", "n-send",
 	// batches, privilege navigation into configuration mode, in-channel authentication during Open
 	"g-batch", "n-config", "g-tauth-open", "g-sauth-open",
 	// NETCONF: subscription establishment, a transport that echoes requests
-	"nc10-sub", "nc11-sub", "nc10-rpc-echo", "nc11-rpc-echo"}
+	"nc10-sub", "nc11-sub", "nc10-rpc-echo", "nc11-rpc-echo",
+	// platform-built drivers: loss during the on-open steps inside Open, during Close's on-close steps
+	"p-iosxe-open", "p-syn-open", "p-gen-open", "p-iosxe-close"}
 
 type c06scen struct {
 	Name  string
@@ -266,6 +269,69 @@ func (s c06scen) setSeg(p *sim.Pipe) {
 	}
 }
 
+const c06genYAML = `---
+platform-type: 'c06gen'
+default:
+  driver-type: 'generic'
+  on-open:
+    - operation: 'channel.write'
+      input: 'stty cols 200'
+    - operation: 'channel.return'
+  on-close:
+    - operation: 'channel.write'
+      input: 'exit'
+    - operation: 'channel.return'
+`
+
+// c06synYAML: a network platform definition over the harness patterns whose on-open steps use every
+// on-X operation kind (acquire-priv, driver.send-command, channel.write, channel.return).
+func c06synYAML() string {
+	q := func(s string) string { return "'" + strings.ReplaceAll(s, "'", "''") + "'" }
+	p := facts.C06Patterns
+	return `---
+platform-type: 'c06syn'
+default:
+  driver-type: 'network'
+  privilege-levels:
+    exec:
+      name: 'exec'
+      pattern: ` + q(p["exec"]) + `
+      previous-priv:
+      deescalate:
+      escalate:
+      escalate-auth: false
+      escalate-prompt:
+    privilege-exec:
+      name: 'privilege-exec'
+      pattern: ` + q(p["privexec"]) + `
+      previous-priv: 'exec'
+      deescalate: 'disable'
+      escalate: 'enable'
+      escalate-auth: true
+      escalate-prompt: ` + q(p["password"]) + `
+    configuration:
+      name: 'configuration'
+      pattern: ` + q(p["config"]) + `
+      previous-priv: 'privilege-exec'
+      deescalate: 'end'
+      escalate: 'configure terminal'
+      escalate-auth: false
+      escalate-prompt:
+  default-desired-privilege-level: 'privilege-exec'
+  network-on-open:
+    - operation: 'acquire-priv'
+    - operation: 'driver.send-command'
+      command: 'terminal length 0'
+    - operation: 'channel.write'
+      input: 'terminal monitor'
+    - operation: 'channel.return'
+  network-on-close:
+    - operation: 'channel.write'
+      input: 'exit'
+    - operation: 'channel.return'
+`
+}
+
 func c06privs() map[string]*network.PrivilegeLevel {
 	return map[string]*network.PrivilegeLevel{
 		"exec": {Name: "exec", Pattern: facts.C06Patterns["exec"], PreviousPriv: ""},
@@ -447,7 +513,40 @@ func (s c06scen) build() *c06env {
 			}
 			return string(all), nil
 		}}
-	case strings.HasPrefix(s.base(), "n-"):
+	case s.base() == "p-gen-open":
+		// a generic platform definition whose on-open steps only write (channel.write, channel.return)
+		dev := sim.NewCLI()
+		dev.Prompt = func(c *sim.CLI) string { return s.host + "#" }
+		dev.Handle = func(c *sim.CLI, line string) string {
+			if line == "" || strings.HasPrefix(line, "stty") {
+				return ""
+			}
+			return s.out
+		}
+		s.setSeg(dev.Pipe)
+		e.pipe = dev.Pipe
+		e.lossy = sim.NewLossy(dev, dev.Pipe)
+		pf, err := platform.NewPlatform([]byte(c06genYAML), "h", append(base, options.WithCustomTransport(e.lossy))...)
+		if err != nil {
+			panic(err)
+		}
+		d, err := pf.GetGenericDriver()
+		if err != nil {
+			panic(err)
+		}
+		e.open = d.Open
+		e.close = d.Close
+		send := func() (string, error) {
+			r, err := d.SendCommand(s.cmd)
+			if err != nil {
+				return "", err
+			}
+			return r.Result, nil
+		}
+		prm := func() (string, error) { return d.GetPrompt() }
+		e.later = []func() (string, error){send, prm}
+		e.hops = map[string]func() (string, error){"prompt": prm, "send": send}
+	case strings.HasPrefix(s.base(), "n-") || strings.HasPrefix(s.base(), "p-"):
 		dev := sim.NewCLI()
 		dev.Mode = "exec"
 		dev.Prompt = func(c *sim.CLI) string {
@@ -492,7 +591,23 @@ func (s c06scen) build() *c06env {
 				return err
 			}))
 		}
-		d, err := network.NewDriver("h", opts...)
+		var d *network.Driver
+		var err error
+		if strings.HasPrefix(s.base(), "p-") {
+			// the driver is built from a platform definition: the embedded cisco_iosxe with its real
+			// on-open / on-close steps, or a synthetic one using every on-X operation kind
+			var src interface{} = "cisco_iosxe"
+			if strings.HasPrefix(s.base(), "p-syn") {
+				src = []byte(c06synYAML())
+			}
+			pf, perr := platform.NewPlatform(src, "h", append(base, options.WithCustomTransport(e.lossy), options.WithAuthSecondary(s.secret))...)
+			if perr != nil {
+				panic(perr)
+			}
+			d, err = pf.GetNetworkDriver()
+		} else {
+			d, err = network.NewDriver("h", opts...)
+		}
 		if err != nil {
 			panic(err)
 		}
@@ -511,6 +626,10 @@ func (s c06scen) build() *c06env {
 				return "", err
 			}
 			return r.Result, nil
+		}
+		if strings.HasSuffix(s.base(), "-close") {
+			// the operation under test is Close itself: the loss strikes during its on-close steps
+			e.op = func() (string, error) { return "", d.Close() }
 		}
 		if s.base() == "n-config" {
 			// SendConfigs: navigate exec -> privilege-exec (password) -> configuration, then a batch
@@ -1033,6 +1152,28 @@ func (s c06scen) program() []c06phase {
 			c06W(s.secret), c06W("\n"), c06P("C06.exec+C06.privexec+C06.privexec"),
 			c06W("\n"), c06P(c06joined)} // GetPrompt
 		return append(p, sendG(cmd, c06joined)...)
+	case "p-iosxe-open", "p-syn-open", "p-iosxe-close":
+		joined, exec, priv, pw := c06joined, "C06.exec", "C06.privexec", "C06.password"
+		if strings.HasPrefix(s.base(), "p-iosxe") {
+			joined = "C06.iosxe.exec+C06.iosxe.privilege-exec+C06.iosxe.configuration+C06.iosxe.tclsh"
+			exec, priv, pw = "C06.iosxe.exec", "C06.iosxe.privilege-exec", "C06.iosxe.password"
+		}
+		if s.base() == "p-iosxe-close" {
+			// network-on-close: acquire-priv (already there: one GetPrompt), channel.write, channel.return
+			return []c06phase{c06W("\n"), c06P(joined), c06W("exit"), c06W("\n")}
+		}
+		p := []c06phase{c06W("\n"), c06P(joined), // acquire-priv: GetPrompt
+			c06W("enable"), c06E("enable"), c06W("\n"), c06P(exec + "+" + priv + "+" + pw),
+			c06W(s.secret), c06W("\n"), c06P(exec + "+" + priv + "+" + priv),
+			c06W("\n"), c06P(joined)}
+		if s.base() == "p-iosxe-open" {
+			p = append(p, sendG("terminal width 512", joined)...)
+			return append(p, sendG("terminal length 0", joined)...)
+		}
+		p = append(p, sendG("terminal length 0", joined)...)
+		return append(p, c06W("terminal monitor"), c06W("\n"))
+	case "p-gen-open":
+		return []c06phase{c06W("stty cols 200"), c06W("\n")}
 	case "g-batch":
 		p := sendG(s.cmd, "Channel.promptPattern")
 		p = append(p, sendG("show clock", "Channel.promptPattern")...)
@@ -1430,7 +1571,7 @@ func runC06(c *ctx) {
 			return
 		}
 		for _, l := range ref.Later {
-			if l.Ident != "nil" {
+			if l.Ident != "nil" && !strings.HasSuffix(s.base(), "-close") { // after Close later operations fail anyway
 				res.Fail("machinery", "c06case "+s.id()+" ref 0", fmt.Sprintf("lossless reference run: later op failed %+v", l), "reference-run")
 				return
 			}
@@ -1588,7 +1729,8 @@ func runC06(c *ctx) {
 // c06rx diffs the Lean engine against Go's regexp for the patterns the harness configures.
 func c06rx(c *ctx) {
 	var names []string
-	for n := range facts.C06Patterns {
+	all := facts.C06AllPatterns()
+	for n := range all {
 		names = append(names, n)
 	}
 	sort.Strings(names)
@@ -1608,7 +1750,7 @@ func c06rx(c *ctx) {
 	ans := c.ask(lines)
 	for i, a := range ans {
 		want := "0"
-		if regexp.MustCompile(facts.C06Patterns[qs[i].name]).MatchString(qs[i].subj) {
+		if regexp.MustCompile(all[qs[i].name]).MatchString(qs[i].subj) {
 			want = "1"
 		}
 		if a != want {
@@ -1724,7 +1866,16 @@ func c06judge(c *ctx, sw *c06sweep, out map[int]c06out, answer string) {
 			continue
 		}
 		// ---- oracle on the operation in flight
-		if dom {
+		closeOp := strings.HasSuffix(s.base(), "-close")
+		if closeOp {
+			// Close swallows the errors of its on-close steps by design: it has to return (above: no
+			// hang, the process lives); whether it reports the loss is not the property's business
+			res.Count("close under loss returned:" + op.Ident)
+			if op.ElapsedUs > (c06Timeout+c06Prompt).Microseconds()*3 {
+				res.Fail("oracle", caseLine, fmt.Sprintf("Close took %d ms under %s at byte %d of its on-close steps", op.ElapsedUs/1000, kind, k), "close-slow:on-close-steps")
+				continue
+			}
+		} else if dom {
 			switch {
 			case op.Ident == "nil":
 				sig := "success-after-loss"
@@ -1793,7 +1944,7 @@ func c06judge(c *ctx, sw *c06sweep, out map[int]c06out, answer string) {
 			continue
 		}
 		// ---- correspondence: the implementation's outcome is one the model allows
-		okc := false
+		okc := closeOp
 		for _, x := range modelSet {
 			cl := c06classOf(x)
 			if cl == op.Ident || (strings.HasPrefix(s.base(), "n-") && cl != "nil" && op.Ident == "privilege") {
